@@ -283,7 +283,7 @@ func init() {
 func init() {
 	addMutants(
 		// D94 reverted
-		mutant{Name: "breakpoints-set-by-generating-code", Prop: "C19", File: "interp/debugger.go", Old: "n.action != aNop && n.gen != nil {", New: "n.action != aNop && getExec(n) != nil {", Rule: "R19.13", Key: "Debugger.SetBreakpoints/generates-no-code"},
+		mutant{Name: "breakpoints-set-by-generating-code", Prop: "C19", File: "interp/debugger.go", Old: "n.action != aNop && n.exec != nil {", New: "n.action != aNop && getExec(n) != nil {", Rule: "R19.13", Key: "Debugger.SetBreakpoints/generates-no-code"},
 	)
 }
 
